@@ -45,7 +45,6 @@ type multiUpdateExecutor struct {
 	execContext *types.ExecContext
 }
 
-var rows driver.Rows
 var comma = ","
 
 // NewMultiUpdateExecutor get new multi update executor
@@ -116,6 +115,9 @@ func (u *multiUpdateExecutor) beforeImage(ctx context.Context) ([]*types.RecordI
 
 	rows, err := u.rowsPrepare(ctx, selectSQL, selectArgs)
 	defer func() {
+		if rows == nil {
+			return
+		}
 		if err := rows.Close(); err != nil {
 			log.Errorf("rows close fail, err:%v", err)
 			return
@@ -153,11 +155,19 @@ func (u *multiUpdateExecutor) afterImage(ctx context.Context, beforeImages []*ty
 		return nil, err
 	}
 
+	// no row was selected by any of the statements: there is nothing to look up (and no key for the IN list)
+	if len(beforeImage.Rows) == 0 {
+		return []*types.RecordImage{types.NewEmptyRecordImage(metaData, u.parserCtx.SQLType)}, nil
+	}
+
 	// use
 	selectSQL, selectArgs := u.buildAfterImageSQL(beforeImage, *metaData)
 
-	rows, err = u.rowsPrepare(ctx, selectSQL, selectArgs)
+	rows, err := u.rowsPrepare(ctx, selectSQL, selectArgs)
 	defer func() {
+		if rows == nil {
+			return
+		}
 		if err := rows.Close(); err != nil {
 			log.Errorf("rows close fail, err:%v", err)
 			return
@@ -184,18 +194,15 @@ func (u *multiUpdateExecutor) rowsPrepare(ctx context.Context, selectSQL string,
 		queryer, ok = u.execContext.Conn.(driver.Queryer)
 	}
 	if ok {
-		var err error
-		rows, err = util.CtxDriverQuery(ctx, queryerContext, queryer, selectSQL, selectArgs)
-
+		rows, err := util.CtxDriverQuery(ctx, queryerContext, queryer, selectSQL, selectArgs)
 		if err != nil {
 			log.Errorf("ctx driver query: %+v", err)
 			return nil, err
 		}
-	} else {
-		log.Errorf("target conn should been driver.QueryerContext or driver.Queryer")
-		return nil, errors.New("invalid conn")
+		return rows, nil
 	}
-	return rows, nil
+	log.Errorf("target conn should been driver.QueryerContext or driver.Queryer")
+	return nil, errors.New("invalid conn")
 }
 
 // buildAfterImageSQL build the SQL to query after image data
